@@ -284,6 +284,9 @@ def seed_objects():
     }
 
 
+T1_HEADER = b"%!PS-AdobeFont-1.0: Foo 001.000\n/FontName /Foo def\n/Encoding 256 array\n0 1 255 {1 index exch /.notdef put} for\ndup 65 /B put\ndup 66 /A put\nreadonly def\ncurrentfile eexec\n"
+
+
 def seed_objects2():
     """second seed document: composite font (Type0 + CIDFontType2 with W, DW, ToUnicode, CIDSystemInfo), Type 3 font with CharProcs and FontMatrix, TrueType simple font with
     FontDescriptor / Widths / FirstChar, form XObject with Matrix and its own Resources, filtered image with DecodeParms, outline items with Dest / A, named destinations, label tree with Kids"""
@@ -293,9 +296,9 @@ def seed_objects2():
         1: {"Type": "Catalog", "Pages": Ref(2), "Outlines": Ref(20), "PageLabels": {"Kids": [Ref(23)]}, "Names": {"Dests": {"Names": [b"d1", [Ref(4), "Fit"]]}}, "Dests": Ref(24)},
         2: {"Type": "Pages", "Kids": [Ref(4)], "Count": 1, "MediaBox": [0, 0, 300, 300], "Resources": Ref(6), "Rotate": 90, "CropBox": [10, 10, 290, 290]},
         4: {"Type": "Page", "Parent": Ref(2), "Contents": [Ref(5), Ref(15)]},
-        5: Stream({}, b"q BT /F0 10 Tf 10 200 Td <000100020003> Tj /F3 8 Tf (ab) Tj /FT 9 Tf (AB) Tj ET Q "),
+        5: Stream({}, b"q BT /F0 10 Tf 10 200 Td <000100020003> Tj /F3 8 Tf (ab) Tj /FT 9 Tf (AB) Tj /FP 7 Tf (AB) Tj ET Q "),
         15: Stream({}, b"/Fm1 Do /Im1 Do BI /W 1 /H 1 /BPC 8 /CS /G ID \x00\nEI"),
-        6: {"Font": {"F0": Ref(7), "F3": Ref(10), "FT": Ref(12)}, "XObject": {"Fm1": Ref(16), "Im1": Ref(17)}, "ColorSpace": {"CS0": ["ICCBased", Ref(18)]}},
+        6: {"Font": {"F0": Ref(7), "F3": Ref(10), "FT": Ref(12), "FP": Ref(26)}, "XObject": {"Fm1": Ref(16), "Im1": Ref(17)}, "ColorSpace": {"CS0": ["ICCBased", Ref(18)]}},
         7: {"Type": "Font", "Subtype": "Type0", "BaseFont": "ABCDEF+Comp", "Encoding": "Identity-H", "DescendantFonts": [Ref(8)], "ToUnicode": Ref(9)},
         8: {"Type": "Font", "Subtype": "CIDFontType2", "BaseFont": "ABCDEF+Comp", "CIDSystemInfo": {"Registry": b"Adobe", "Ordering": b"Identity", "Supplement": 0},
             "FontDescriptor": Ref(13), "DW": 900, "W": [1, [500, 600], 3, 5, 700], "CIDToGIDMap": "Identity"},
@@ -316,6 +319,10 @@ def seed_objects2():
         23: {"Nums": [0, {"S": "r", "St": 3, "P": b"p-"}], "Limits": [0, 0]},
         24: {"old": [Ref(4), "Fit"]},
         25: {"Type": "StructElem"},
+        # Type 1 font without /Encoding whose encoding comes from the embedded font program
+        26: {"Type": "Font", "Subtype": "Type1", "BaseFont": "Prog", "FontDescriptor": Ref(27), "FirstChar": 65, "LastChar": 66, "Widths": [500, 600]},
+        27: {"Type": "FontDescriptor", "FontName": "Prog", "Flags": 4, "FontBBox": [0, 0, 1000, 1000], "FontFile": Ref(28)},
+        28: Stream({"Length1": len(T1_HEADER), "Length2": 0, "Length3": 0}, T1_HEADER),
     }
 
 
@@ -819,7 +826,6 @@ def h5_cmap(timeout=300, part=None, **kw):
 
 
 # ---- truncated / corrupted embedded font programs
-T1_HEADER = b"%!PS-AdobeFont-1.0: Foo 001.000\n/FontName /Foo def\n/Encoding 256 array\n0 1 255 {1 index exch /.notdef put} for\ndup 65 /B put\ndup 66 /A put\nreadonly def\ncurrentfile eexec\n"
 
 
 def tt_program():
